@@ -48,7 +48,7 @@ func MarshalRSAPSSParameters(pub *rsa.PublicKey, opts *rsa.PSSOptions) (asn1.Raw
 	saltLength := opts.SaltLength
 	switch saltLength {
 	case rsa.PSSSaltLengthAuto:
-		saltLength = (pub.N.BitLen()+7)/8 - 2 - opts.Hash.Size()
+		saltLength = (pub.N.BitLen()-1+7)/8 - 2 - opts.Hash.Size()
 	case rsa.PSSSaltLengthEqualsHash:
 		saltLength = opts.Hash.Size()
 	}
